@@ -1,9 +1,147 @@
+import ScenicModel.Model.Roads
+import ScenicModel.Model.RoadLookup
+import ScenicModel.Model.RoadCache
+import ScenicModel.Gen.Roads
 import Driver.Util
-/-! line protocol for the C20 model (stub: replaced when the property's model is built) -/
+/-!
+line protocol for the C20 model (road-network link tables, point lookups, cache header logic);
+lookup table, passes and cache constants are the ones regenerated from /repo (`Gen/Roads.lean`).
+
+network encoding: one token per element, `<kind><F|B>[;<field>=<i>,<i>,…]…`, element 0 is the network.
+-/
 namespace Driver.C20
-open Driver
+open Driver Scenic.Roads Scenic.RoadCache
+
+def parseKind : String → Option Kind
+  | "net" => some .network | "road" => some .road | "grp" => some .laneGroup | "lane" => some .lane
+  | "rsec" => some .roadSection | "lsec" => some .laneSection | "int" => some .intersection
+  | "sw" => some .sidewalk | "sh" => some .shoulder | "cross" => some .crossing
+  | "man" => some .maneuver | _ => none
+
+def parseField : String → Option Field
+  | "road" => some .road | "group" => some .group | "lane" => some .lane | "succ" => some .succ
+  | "pred" => some .pred | "opposite" => some .opposite | "forward" => some .forward
+  | "backward" => some .backward | "sidewalk" => some .sidewalk | "shoulder" => some .shoulder
+  | "left" => some .left | "right" => some .right | "faster" => some .faster
+  | "slower" => some .slower | "lanes" => some .lanes | "sections" => some .sections
+  | "groups" => some .groups | "adjacent" => some .adjacent | "maneuvers" => some .maneuvers
+  | "roads" => some .roads | "connecting" => some .connecting | "incoming" => some .incoming
+  | "outgoing" => some .outgoing | "intersections" => some .intersections
+  | "sidewalks" => some .sidewalks | "shoulders" => some .shoulders
+  | "laneSections" => some .laneSections | "start" => some .start | "conn" => some .conn
+  | "endLane" => some .endLane | "inter" => some .inter | "via" => some .via
+  | "direct" => some .direct | _ => none
+
+def parseNats (s : String) : Option (List Nat) :=
+  if s == "" || s == "-" then some [] else (s.splitOn ",").mapM String.toNat?
+
+def parseFieldVal (s : String) : Option (Field × List Nat) :=
+  match s.splitOn "=" with
+  | [f, v] => do
+    let f ← parseField f; let v ← parseNats v; pure (f, v)
+  | _ => none
+
+def parseElem (tok : String) : Option Elem :=
+  match tok.splitOn ";" with
+  | [] => none
+  | hd :: fs => do
+    let n := hd.length
+    if n < 2 then none else
+    let k ← parseKind (hd.take (n - 1)).toString
+    let d := (hd.drop (n - 1)).toString
+    if d != "F" && d != "B" then none else
+    let fields ← fs.mapM parseFieldVal
+    pure { kind := k, isForward := d == "F", fields := fields }
+
+def parseNet (toks : List String) : Option Network := do
+  let es ← toks.mapM parseElem
+  pure { elems := es.toArray }
+
+def showNats (l : List Nat) : String := ",".intercalate (l.map toString)
+
+/-- `ok <#rules>` or `fail <rule index>@<first failing elements> …` -/
+def linksReport (n : Network) : String :=
+  let bad := (rules.zipIdx).filterMap fun (r, k) =>
+    if r.check n then none else some s!"{k}@{showNats ((r.failures n).take 3)}"
+  if linksReciprocal n && bad.isEmpty then s!"ok {rules.length}"
+  else "fail " ++ " ".intercalate bad
+
+def parsePoint (tok : String) : Option PointFacts :=
+  match tok.splitOn "/" with
+  | [e, m] => do
+    let e ← parseNats e; let m ← parseNats m; pure { exact := e, near := m }
+  | _ => none
+
+def showOptNat : Option Nat → String
+  | none => "-"
+  | some i => toString i
+
+def queryPoint (n : Network) (tolPos : Bool) (pf : PointFacts) : String :=
+  ",".intercalate (Scenic.Gen.Roads.lookups.map fun (_, d) =>
+    showOptNat (lookupWith Scenic.Gen.Roads.passes n tolPos pf d))
+
+def splitAtTok (t : String) : List String → List String × List String
+  | [] => ([], [])
+  | x :: xs => if x == t then ([], xs) else
+    let (a, b) := splitAtTok t xs
+    (x :: a, b)
+
+def parseErr : Err → String
+  | .unpickling => "unpickling" | .digestMismatch => "mismatch" | .other => "other"
+
+def parseOptBytes (s : String) : Option (Option Bytes) :=
+  if s == "none" then some none else if s == "empty" then some (some []) else (fromHex s).map some
+
+def unpickleFlag (s : String) : Bytes → Option Unit := fun _ => if s == "ok" then some () else none
+
+def parseKV (tok : String) : Option (Bytes × Option Bytes) :=
+  match tok.splitOn "=" with
+  | [k, v] => do
+    let k ← fromHex k
+    let v ← if v == "none" then some none else (fromHex v).map some
+    pure (k, v)
+  | _ => none
 
 def handle : List String → String
+  | "links" :: toks =>
+    match parseNet toks with
+    | some n => linksReport n
+    | none => "bad-net"
+  | "rules" :: _ => toString rules.length
+  | "lookups" :: _ => " ".intercalate (Scenic.Gen.Roads.lookups.map (·.1))
+  | "query" :: tp :: rest =>
+    let (toks, pts) := splitAtTok "Q" rest
+    match parseNet toks, pts.mapM parsePoint with
+    | some n, some ps => " ".intercalate (ps.map (queryPoint n (tp == "1")))
+    | _, _ => "bad-query"
+  | ["find", tp, elems, exact, near] =>
+    match parseNats elems, parseNats exact, parseNats near with
+    | some es, some ex, some nr =>
+      showOptNat (findPointInWith Scenic.Gen.Roads.passes (tp == "1") { exact := ex, near := nr } es)
+    | _, _, _ => "bad-find"
+  | ["frompickle", file, payload, orig, opts] =>
+    match fromHex file, parseOptBytes orig, parseOptBytes opts with
+    | some f, some o, some p =>
+      match fromPickle Scenic.Gen.Roads.cacheCfg (unpickleFlag payload) f o p with
+      | .ok _ => "ok"
+      | .err e => parseErr e
+    | _, _, _ => "bad-frompickle"
+  | ["fromfile", useCache, cache, payload, digest, optd] =>
+    match (if cache == "none" then some none else (fromHex cache).map some), fromHex digest, fromHex optd with
+    | some c, some d, some o =>
+      match fromFile Scenic.Gen.Roads.cacheCfg (unpickleFlag payload) () (useCache == "1") c d o with
+      | .cached _ => "cached"
+      | .parsed _ => "parsed"
+      | .raised e => "raised:" ++ parseErr e
+    | _, _, _ => "bad-fromfile"
+  | ["header", digest, optd] =>
+    match fromHex digest, fromHex optd with
+    | some d, some o => toHex (header Scenic.Gen.Roads.cacheCfg d o)
+    | _, _ => "bad-header"
+  | "opthash" :: kvs =>
+    match kvs.mapM parseKV with
+    | some l => toHex (optionsPreimage Scenic.Gen.Roads.hashCfg l)
+    | none => "bad-opthash"
   | _ => "bad-op"
 
 end Driver.C20
